@@ -49,13 +49,24 @@ func (r *row) String() string {
 
 // fakeDB is the "database": a few row slots, read by the query closures.
 type fakeDB struct {
-	strPK   bool
-	rows    [nSlots]*row
-	fail    bool
-	version int64
-	q       map[string]int  // queries per cache key during the current op
-	nf      error           // the configured not-found error of the store
-	ctx     context.Context // context of the call in progress (nil: API without context); a dead one makes the database refuse
+	strPK     bool
+	rows      [nSlots]*row
+	fail      bool
+	version   int64
+	q         map[string]int  // queries per cache key during the current op
+	nf        error           // the configured not-found error of the store
+	panicOnce bool            // the next query panics (a bug in the caller's query closure), once
+	ctx       context.Context // context of the call in progress (nil: API without context); a dead one makes the database refuse
+}
+
+// errLoaderPanic is the value the query closure panics with when asked to.
+var errLoaderPanic = errors.New("verif: injected panic in the query closure")
+
+func (d *fakeDB) maybePanic() {
+	if d.panicOnce {
+		d.panicOnce = false
+		panic(errLoaderPanic)
+	}
 }
 
 // refused: a database does not work under a context that is already done.
@@ -101,6 +112,7 @@ func (d *fakeDB) newRow(slot int, name string) *row {
 // queryPrimary is the body of every primary-key query closure.
 func (d *fakeDB) queryPrimary(key string, slot int, val any) error {
 	d.q[key]++
+	d.maybePanic()
 	if err := d.refused(); err != nil {
 		return err
 	}
@@ -117,6 +129,7 @@ func (d *fakeDB) queryPrimary(key string, slot int, val any) error {
 // queryIndex is the body of the index query closure.
 func (d *fakeDB) queryIndex(key, name string, val any) (any, error) {
 	d.q[key]++
+	d.maybePanic()
 	if err := d.refused(); err != nil {
 		return nil, err
 	}
